@@ -211,7 +211,9 @@ RULE = ("seeded random table models (layered re-converging, negative costs, ties
 def check_c01(tier, pid="C01"):
     sc = SolveCheck(pid, tier, "proof" if pid in ("C01", "C02") else "other")
     if pid == "C01": sc.proofs("C01+C01u", ["C01_seq_solver_correct_under_diagram_contracts", "C01_sequential_solver_returns_optimum",
-                                            "C01_sequential_solver_returns_optimum_unbounded_relax", "C01_holds_on_table_family", "C01_example_instance"])
+                                            "C01_sequential_solver_returns_optimum_unbounded_relax", "C01_holds_on_table_family", "C01_example_instance",
+                                            "C01_sequential_solver_returns_optimum_NoDupFringe", "C01_NoDupFringe_under_diagram_contracts",
+                                            "C01_holds_on_table_family_NoDupFringe", "C01_example_instance_with_coalescing"])
     if pid == "C02": sc.proofs("C02+C02u", ["C02_best_exact_path_replays", "C02_chain_feasible_in_exact_arithmetic",
                                             "C02_sequential_solution_replays_to_reported_value"])
     if not sc.build(): return sc.chk.finish()
@@ -332,7 +334,7 @@ def check_c01(tier, pid="C01"):
         "C09": "Caching vs non-caching solvers vs exhaustive enumeration on re-converging instances; the Coq solver model includes the threshold cache, so equality of "
                "explored-node and poll counts with the code validates the threshold computations. Search-level soundness theorem is an open obligation.",
     }[pid]
-    openo = {"C01": ["C01 theorem for cache / dominance / pooled / NoDupFringe configurations (covered by correspondence + oracle only)"],
+    openo = {"C01": ["C01 theorem for cache / dominance / pooled configurations (covered by correspondence + oracle only)"],
              "C02": ["C02 theorem for cache / dominance / pooled / NoDupFringe configurations and for parallel runs cut off by a cutoff"],
              "C09": ["C09_cache_preserves_optimum (search-level)", "per-compilation threshold soundness"]}[pid]
     return sc.finish(RULE, expl, openo, extra)
@@ -432,7 +434,7 @@ def check_cutoff(tier, pid):
 def check_c14(tier):
     sc = SolveCheck("C14", tier, "proof")
     sc.proofs("C14+C14u", ["C14_seq_solver_correct_with_primal", "C14_set_primal_replaces_only_when_strictly_greater",
-                           "C14_primal_never_hides_the_optimum"])
+                           "C14_primal_never_hides_the_optimum", "C14_primal_never_hides_the_optimum_NoDupFringe"])
     if not sc.build(): return sc.chk.finish()
     n = 40 * (1 if tier == "quick" else 10)
     insts = gen_instances(sc.rng, n, "plain")
@@ -488,7 +490,7 @@ def check_c14(tier):
             sc.compare_model(I, case, li, lm)
     return sc.finish(RULE + "; primal = (value, witness solution) taken from the specification's enumeration: optimum, best sub-optimal, worst",
                      "Warm-start runs compared with max(primal, optimum) from exhaustive enumeration and with the Coq solver model started from set_primal.",
-                     ["cache / dominance / pooled / NoDupFringe configurations: correspondence + oracle only"])
+                     ["cache / dominance / pooled configurations: correspondence + oracle only"])
 
 
 # ================================================================================ C15 (long arcs)
